@@ -409,7 +409,24 @@ def generate(cfg="A", builddir=None, outpath=None):
                 f.write(_cl.stub(failed["lexer_c"]))
         except Exception:
             pass
-    gens = {"fifo_c": fifo_c, "intfmt_c": intfmt_c, "lexer_c": lexer_c}
+    # C -> Lean translation of the string heap of utils.c (Gen/HeapC.lean; configuration B only: -DUSE_MEMORY_ALLOCATION_FREE=0),
+    # same treatment: a refused function is a `NotTranslated` constant, so the theorems of Lemmas/HeapC.lean and
+    # Props/C20Gen.lean about it stop building; section name `heap_c`
+    heap_c = {"functions": [], "changed": False}
+    try:
+        import c2lean_heap
+        heap_c = c2lean_heap.generate_heap(os.path.join(os.path.dirname(outpath), "HeapC.lean"))
+        if heap_c["failed"]:
+            failed["heap_c"] = "; ".join("%s: %s" % kv for kv in sorted(heap_c["failed"].items()))[:400]
+    except Exception as e:
+        failed["heap_c"] = ("c2lean_heap: %s: %s" % (type(e).__name__, e))[:400]
+        try:
+            import c2lean as _c
+            with open(os.path.join(os.path.dirname(outpath), "HeapC.lean"), "w") as f:
+                f.write(_c.stub("ScpiVerif.Gen.HeapC", failed["heap_c"]))
+        except Exception:
+            pass
+    gens = {"fifo_c": fifo_c, "heap_c": heap_c, "intfmt_c": intfmt_c, "lexer_c": lexer_c}
     rows = {"errclass": len(errclass), "errdesc": len(errdesc), "units": len(unit_rows), "special": len(special)}
     for _n, _g in gens.items():
         rows[_n + "_functions"] = len(_g.get("functions", []))
